@@ -75,6 +75,13 @@ def gen_program(rng, cls, enc, nsec=None, allow_nested=True, explicit_prob=0.35,
                 prog["segs"].append({"type": rng.choice([4, 2, 0x6474e550, 0x6474e552]), "flags": 4,
                                      "align": rng.choice([1, 4, 8]), "vaddr": first["addr"], "paddr": first["addr"],
                                      "members": [i + 2 for i in sub], "explicit": True, "nested": True})
+    # segments may be created in any order (the writer orders them itself)
+    if len(prog["segs"]) > 1 and rng.random() < 0.5:
+        rng.shuffle(prog["segs"])
+    # add_section_index(idx, align) may be called with an alignment below the section's own
+    for g in prog["segs"]:
+        if g["members"] and rng.random() < 0.3:
+            g["addalign"] = rng.choice([0, 1, 1, 2])
     if rng.random() < 0.15 and prog["segs"]:
         # PT_PHDR-style segment without sections
         # its address range must not cover any section (segments' address ranges are disjoint in the domain)
@@ -124,7 +131,7 @@ def to_lines(prog):
     for j, g in enumerate(prog["segs"]):
         L.append(f"addseg type={g['type']} flags={g['flags']} align={g['align']} vaddr={g['vaddr']} paddr={g['paddr']}")
         for m in g["members"]:
-            L.append(f"segadd {j} {m}")
+            L.append(f"segadd {j} {m}" + (f" {g['addalign']}" if g.get("addalign") is not None else ""))
     return L
 
 
@@ -234,6 +241,9 @@ def check_c04(prog, img, members_from_prog=True):
             if t["p_memsz"] < t["p_filesz"]:
                 v.append(("memsz<filesz", f"segment {j}"))
             for m in g["members"]:
+                if m >= len(d["sections"]):
+                    v.append(("member-missing", f"segment {j} member {m}: the saved file has only {len(d['sections'])} sections"))
+                    continue
                 s = d["sections"][m]
                 if elfspec.occupies_file(s["sh_type"]):
                     if not (t["p_offset"] <= s["sh_offset"] and s["sh_offset"] + s["sh_size"] <= t["p_offset"] + t["p_filesz"]):
